@@ -714,6 +714,20 @@ func (env *Env) evalBin(x *EBin) (*Val, error) {
 }
 
 func (env *Env) specEqual(a, b *Val) (string, error) {
+	// an interior pointer (&x.f, &a[i]) compared with nil: never nil, unless it is the nullable merge of nil with interior pointers
+	isNilConst := func(v *Val) bool { return v.Loc == nil && v.Clos == nil && v.T == nil && len(v.L) == 1 && v.L[0].T == "0" }
+	if a.Loc != nil && a.Clos == nil && isNilConst(b) {
+		if a.Loc.Nullable {
+			return eq(a.Loc.Ref, "0"), nil
+		}
+		return "false", nil
+	}
+	if b.Loc != nil && b.Clos == nil && isNilConst(a) {
+		if b.Loc.Nullable {
+			return eq(b.Loc.Ref, "0"), nil
+		}
+		return "false", nil
+	}
 	if a.Loc != nil || b.Loc != nil || a.Clos != nil || b.Clos != nil {
 		return "", fmt.Errorf("cannot compare interior pointers or closures")
 	}
